@@ -7,7 +7,7 @@ import RbpfModel.Model.Disasm
 import RbpfModel.Model.RtSpec
 import RbpfModel.Model.AsmSpec
 import RbpfModel.Lemmas.VerifierLemmas
-namespace Rbpf
+namespace Rbpf.TextL
 open Asm
 
 /-! ## C14: the parser -/
@@ -611,4 +611,4 @@ theorem toInsnVec_entries {p : Bytes} {es : List Disasm.HLInsn} (h : Disasm.toIn
   obtain ⟨x, hx, -, h1, h2, h3, h4, h5, h6, h7⟩ := entryAt_spec hn
   exact ⟨x, hx, h1, h2, h3, h4, h5, h6, h7⟩
 
-end Rbpf
+end Rbpf.TextL
